@@ -27,10 +27,12 @@ Inductive fty :=
 | FPtr (id : N) (elem : sty)            (* pointer to a scalar type *)
 | FJson (id : N)                        (* struct, map, slice, pointer to struct: bound via JSON *)
 | FIface (id : N)                       (* interface type (any): ZeroValue().Value() is nil *)
-| FOther (id : N) (kd : N).             (* array, chan, func, pointer to pointer ...: reflect.Kind number kd *)
+| FOther (id : N) (kd : N) (elem : option (N * N)).
+   (* array, chan, func, pointer to array / pointer / chan ...: reflect.Kind number kd; for a pointer
+      whose element is not a scalar, struct, slice or map: the element's type id and Kind *)
 
 Definition fty_id (t : fty) : N :=
-  match t with FScalar s => s_id s | FPtr id _ | FJson id | FIface id | FOther id _ => id end.
+  match t with FScalar s => s_id s | FPtr id _ | FJson id | FIface id | FOther id _ _ => id end.
 
 Inductive sval := SBool (b : bool) | SStr (s : string) | SInt (z : Z) | SF32 (bits : Z) | SF64 (bits : Z).
 
@@ -50,7 +52,8 @@ Inductive bval :=
 | BSame (v : dval)                     (* NewValue accepted the value as is *)
 | BScalar (t : sty) (v : sval)         (* converted scalar of type t *)
 | BPtr (id : N) (t : sty) (v : sval)   (* fresh pointer (type id) to a converted scalar *)
-| BJson (id : N) (form : string).      (* decoded through encoding/json into type id *)
+| BJson (id : N) (form : string)       (* decoded through encoding/json into type id *)
+| BPtrO (id : N).                      (* fresh pointer (type id) to a converted non-scalar value *)
 
 Definition ty_float64 : sty := {| s_id := 13; s_kind := KFloat64 |}.
 Definition ty_int64 : sty := {| s_id := 6; s_kind := KInt64 |}.
@@ -229,7 +232,7 @@ Definition try_convert (T : fty) (v : dval) : outcome (option bval) :=
       let step4 : option bval :=
         match T, v with
         | FScalar t, DS vt sv => if skind_eqb (s_kind t) (s_kind vt) then Some (BScalar t (convert_same_kind sv)) else None
-        | FOther id kd, DO _ vkd conv => if N.eqb kd vkd && existsb (N.eqb id) conv then Some (BSame v) else None
+        | FOther id kd _, DO _ vkd conv => if N.eqb kd vkd && existsb (N.eqb id) conv then Some (BSame v) else None
         | _, _ => None
         end in
       match step4 with
@@ -238,6 +241,10 @@ Definition try_convert (T : fty) (v : dval) : outcome (option bval) :=
           (* 5. tryConvertPointer *)
           match T, v with
           | FPtr id elem, DS vt sv => if skind_eqb (s_kind elem) (s_kind vt) then Ok (Some (BPtr id elem sv)) else Ok None
+          (* pointer to an array / pointer / chan ...: same Kind and ConvertibleTo the element type
+             (without the second guard reflect.Value.Convert panics) *)
+          | FOther id _ (Some (eid, ekd)), DO _ vkd conv =>
+              if N.eqb ekd vkd && existsb (N.eqb eid) conv then Ok (Some (BPtrO id)) else Ok None
           | _, _ => Ok None
           end
       end
